@@ -683,3 +683,65 @@ func isReachable(graph *Graph, start, target string, visited map[string]bool) bo
 	}
 	return false
 }
+
+// hasEffectiveCycle reports whether the effective waits-for relation among tasks contains a cycle.
+// A task waits for its own dependencies and, when it belongs to an epic, for every child of every
+// epic that its epic depends on (that is what readiness evaluates). hasCycle alone follows direct
+// edges only, so a task-level edge in one direction and an epic-level edge in the other would form a
+// cycle that leaves all tasks involved blocked forever.
+func hasEffectiveCycle(graph *Graph) bool {
+	children := map[string][]string{}
+	for id, task := range graph.Tasks {
+		if !task.IsEpic && task.EpicID != "" {
+			children[task.EpicID] = append(children[task.EpicID], id)
+		}
+	}
+	waitsFor := func(id string) []string {
+		task := graph.Tasks[id]
+		if task == nil || task.IsEpic {
+			return nil
+		}
+		var out []string
+		for dep := range graph.Deps[id] {
+			if other := graph.Tasks[dep]; other != nil && !other.IsEpic {
+				out = append(out, dep)
+			}
+		}
+		if task.EpicID != "" {
+			for depEpic := range graph.Deps[task.EpicID] {
+				if other := graph.Tasks[depEpic]; other != nil && other.IsEpic {
+					out = append(out, children[depEpic]...)
+				}
+			}
+		}
+		return out
+	}
+	const (
+		unseen = iota
+		active
+		done
+	)
+	state := map[string]int{}
+	var visit func(id string) bool
+	visit = func(id string) bool {
+		state[id] = active
+		for _, next := range waitsFor(id) {
+			switch state[next] {
+			case active:
+				return true
+			case unseen:
+				if visit(next) {
+					return true
+				}
+			}
+		}
+		state[id] = done
+		return false
+	}
+	for id, task := range graph.Tasks {
+		if !task.IsEpic && state[id] == unseen && visit(id) {
+			return true
+		}
+	}
+	return false
+}
